@@ -27,7 +27,21 @@ def run(ctx: Ctx) -> Collector:
     return c
 
 
+def _discover_wrapper(ctx: Ctx) -> None:
+    """The wrapper is whatever function enable() installs as scheduler.step (nested in enable() in the pinned tree)."""
+    global WRAPPED, HOOKS
+    en = ctx.summ(DBG + ".enable")
+    for e in en.of_kind("store"):
+        if (e.term[1] == T.glob("mosaik.scheduler.step") or T.show(e.term[1]).endswith("scheduler.step")) and e.term[2][0] == "glob" and e.term[2][1] in ctx.prog.functions:
+            WRAPPED = e.term[2][1]
+            HOOKS = HOOKS[:2] + [WRAPPED]
+            return
+    WRAPPED = "mosaik._debug.enable.wrapped_step"
+    HOOKS = HOOKS[:2] + [WRAPPED]
+
+
 def _wrapper(ctx: Ctx, c: Collector) -> None:
+    _discover_wrapper(ctx)
     fi = ctx.func(WRAPPED)
     s = ctx.summ(WRAPPED)
     ps = [T.var(p) for p in fi.params]
